@@ -1,7 +1,7 @@
 """C08 - mock verdict is exact: a scenario passes iff the actual calls match the expectations; the first deviation
 fails once with the matching diagnosis; return values / output parameters of the consumed expectation (Mock.tla)."""
-import json
-from vlib.conform import conform
+import json, os, re
+from vlib.conform import conform, read_log
 from vlib.core import Infra
 import mockgen as G
 
@@ -28,6 +28,12 @@ GEN = [
     # one function, an object-bound expectation with a parameter next to a plain one (a seeded change in onObject() pruning was only
     # caught by the thorough tier before this configuration existed)
     ("simobjpar", 12, 40, 600, dict(fns='"f"', objs="1, 2", pnames='"p"', rets="Rets2", maxexp=2, ns="1", maxcalls=3)),
+    # verdict steps (expectedCallsLeft, checkExpectations, the end of the test) over calls left in progress: exhaustive for two scopes with
+    # one expectation each - every combination of "no call / finished call / open call that can / cannot be completed" per scope, with and
+    # without further unfulfilled expectations -, sampled for three scopes with objects, two expectations and strict order (a call out of order
+    # beside a call that cannot be completed).  Each deviation must reach the reporter once (Mock!ReportedOnce)
+    ("bfsverdict", 6, None, None, dict(scopes="ScopesGS", fns='"f"', pnames='"p"', vals="Vals1", rets="Rets1", maxexp=1, ns="1", maxcalls=2, flags="FALSE")),
+    ("simverdict", 12, 30, 700, dict(scopes="ScopesGST", fns='"f"', pnames='"p"', objs="1", rets="Rets1", maxexp=2, ns="1", maxcalls=4)),
     ("simscope", 16, 15, 500, dict(scopes="ScopesGS", fns='"f"', pnames='"p", "q"', rets="Rets2", maxexp=2, ns="1, 2", maxcalls=5, late="TRUE", toggles="TRUE")),
 ]
 
@@ -38,6 +44,15 @@ def key_fn(mode):
         r = observed.get("r", "?") if isinstance(observed, dict) else "?"
         return "%s:%s:%s:%s" % (kind, mode, op, r)
     return f
+
+
+def cut_short(ex, at=None):
+    """the test may end at any point: the executions that stop right after a sub-call of ex (a call may then be in progress in one
+    scope or in several - the end-of-test check has to complete them); at: one cut only"""
+    cuts = [i for i in range(1, len(ex) - 1) if ex[i - 1][0] in ("begin", "param", "outparam", "object")]
+    if at is not None:
+        cuts = cuts[at % len(cuts):][:1] if cuts else []
+    return [tuple(ex[:i]) + (("end",),) for i in cuts]
 
 
 def nontrivial(ex):
@@ -54,11 +69,18 @@ def run(ctx):
     def harness(mode):
         return lambda s, l: ctx.run([exe, s, l, mode], timeout=900)
 
+    reports = {}      # measured: what the failing steps delivered to the reporter ("<mode>:<op>:<categories in order>" -> number of steps)
+
     def both(label, execs, meta):
         for mode in ("rec", "cpp"):
-            conform(ctx, "%s-%s" % (label, mode), execs, harness(mode), "Trace_Mock", tcfg, pcfg, key_fn(mode), tlc_timeout=1800,
-                    meta=dict(meta, mode=mode))
+            tag = "%s-%s" % (label, mode)
+            conform(ctx, tag, execs, harness(mode), "Trace_Mock", tcfg, pcfg, key_fn(mode), tlc_timeout=1800, meta=dict(meta, mode=mode))
+            for e in read_log(os.path.join(ctx.work, re.sub(r"\W+", "_", tag) + ".log.ndjson")):
+                if e.get("reps"):
+                    k = "%s:%s:%s" % (mode, e.get("op"), "+".join(e["reps"]))
+                    reports[k] = reports.get(k, 0) + 1
         ctx.evaluations += 2 * sum(len(e) for e in execs)
+        ctx.notes["reports_delivered"] = dict(sorted(reports.items()))
 
     if ctx.replay:
         rp = json.load(open(ctx.replay))
@@ -81,7 +103,12 @@ def run(ctx):
         n = nq if quick else nt
         g = ctx.tlc("Gen_Mock", ctx.write_cfg("Gen_Mock_" + lab, G.gen_cfg(D, **kw)), workers=8, simulate=n, depth=(D + 5) if n else None,
                     timeout=1500, heap="8g")
-        execs = sorted({tuple(tuple(map(str, l)) for l in G.beh_to_exec(h)) for h in g.beh})
+        execs = {tuple(tuple(map(str, l)) for l in G.beh_to_exec(h)) for h in g.beh}
+        if lab == "bfsverdict":
+            execs |= {c for e in execs for c in cut_short(e)}
+        elif lab == "simverdict":
+            execs |= {c for e in sorted(execs) for c in cut_short(e, ctx.rng.randrange(64))}
+        execs = sorted(execs)
         execs = [G.assign_via(e, ctx.rng, False)[0] for e in execs]
         if not execs:
             raise Infra("no behaviours generated by " + lab)
@@ -105,10 +132,14 @@ def run(ctx):
         rule="scenarios = TLC-generated behaviours of Mock (exhaustive for one expectation / two calls, simulation over 2-3 expectations, "
              "objects, output parameters, scopes, disable/enable) plus seeded random scenarios (typed parameters, up to 12 expectations "
              "and 30 calls); each runs on the real MockSupport twice: with a recording reporter (category at the failing step) and as the "
-             "body of a fixture test with MockSupportPlugin (real verdict, failure count); distinct = distinct call scripts; non-trivial = "
-             "has at least one expectation and one actual call",
+             "body of a fixture test with MockSupportPlugin (real verdict, the failures the test recorded in order); every failing step / "
+             "end-of-test check must deliver each deviation present once (Mock!ReportedOnce: calls in progress that cannot be completed per "
+             "scope, else unfulfilled, out of order); distinct = distinct call scripts; non-trivial = has at least one expectation and one actual call",
         distinct_nontrivial=len(distinct), exhaustive=False,
         assumptions=["expectation sets are unambiguous (Mock!Unambiguous), as the property statement requires",
                      "a parameter name is passed at most once per actual call; tracing mode is not modelled",
                      "where several deviations coincide the specification admits each matching category (Mock!Finish, ParamIn)",
+                     "a verdict step under a reporter that does not end the test reports the first deviation and may report each further one "
+                     "(other scopes' calls that cannot be completed, calls out of order) once; unfulfilled expectations are not reported beside a call "
+                     "that could not be completed (Mock!Deviations)",
                      "output buffers are 8 bytes; the random scenarios install comparators and copiers for their user types per scope (mockgen.install_plan)"])
